@@ -138,7 +138,7 @@ NOT_CLAIMED = {}
 PROPS = {
     "C04": {
         "modules": ["SxVerif.Props.C04"],
-        "components": ["iter"],
+        "components": ["iter", "iterpass"],
         "search": search_c04,
         "trusted_base": [
             "Mathlib v4.33.0 (ZMod, orderOf, lucas_primality) — checked by the same kernel",
@@ -193,7 +193,7 @@ PROPS = {
     },
     "C07": {
         "modules": ["SxVerif.Props.C07"],
-        "components": ["pipeline", "gen"],
+        "components": ["pipeline", "gen", "e2eslow"],
         "extra": [race_pipeline],
         "trusted_base": [
             "modelled, not verified: Go channel / select / sync.WaitGroup / sync.Pool semantics at the granularity of one channel operation or one call per step (Model/Pipe.lean); gopacket SerializeBuffer.Clear never fails; the request channel is modelled unbounded (superset of every capacity incl. rendezvous)",
@@ -248,7 +248,7 @@ PROPS = {
     },
     "C01": {
         "modules": ["SxVerif.Props.C01"],
-        "components": ["gen", "iter", "e2e"],
+        "components": ["gen", "iter", "e2e", "e2ebig"],
         "search": search_c01,
         "trusted_base": [
             "modelled, not verified: generators as the list they send before closing (channel plumbing is M-conc, C07/C08); cidranger as list membership; net.ParseIP / easyjson / bufio as a line classifier; os.Stdin through the buffering opener as a constant file",
